@@ -138,9 +138,10 @@ func (l Logr) DemonAddDownloadedFile(DemonID, FileName string, FileBytes []byte)
 		DemonDownload    = DemonDownloadDir + "/" + FileName
 	)
 
-	// check if we don't have a path traversal
+	// check if we don't have a path traversal: the file has to lie below the download
+	// directory ("Download2/x" also starts with "Download")
 	path := filepath.Clean(DemonDownload)
-	if !strings.HasPrefix(path, DemonDownloadDir) {
+	if !strings.HasPrefix(path, DemonDownloadDir+"/") {
 		logger.Error("File didn't started with agent download path. abort")
 		return
 	}
@@ -181,9 +182,10 @@ func (l Logr) DemonSaveScreenshot(DemonID, Name string, BmpBytes []byte) error {
 		DemonScreenshot    = DemonScreenshotDir + "/" + Name
 	)
 
-	// check if we don't have a path traversal
+	// check if we don't have a path traversal: the file has to lie below the screenshot
+	// directory ("Screenshots2/x" also starts with "Screenshots")
 	path := filepath.Clean(DemonScreenshot)
-	if !strings.HasPrefix(path, DemonScreenshotDir) {
+	if !strings.HasPrefix(path, DemonScreenshotDir+"/") {
 		logger.Error("File didn't started with agent screenshot path. abort")
 		return errors.New("file didn't started with agent screenshot path. abort")
 	}
